@@ -66,6 +66,18 @@ static std::string run_own(const OwnScript& sc) {
     ParseResult r = GetOnDemand(StringView(od.first), to_pointer(od.second), target);
     out += std::to_string((int)r.Error()) + ":" + std::string(target.data(), target.size()) + ";";
   }
+  for (auto& od : sc.ondemand) {  // ParseOnDemand and ParseSchema on thread-owned documents
+    Document pd;
+    pd.ParseOnDemand(od.first, to_pointer(od.second));
+    out += pd.HasParseError() ? "E" : pd.Dump();
+    GenericDocument<DNode<SimpleAllocator>> sd;
+    sd.Parse(od.first);
+    if (!sd.HasParseError() && !sc.texts.empty()) {
+      sd.ParseSchema(sc.texts[0]);
+      out += sd.HasParseError() ? "e" : "s" + std::to_string(sd.Dump().size());
+    }
+    out += ";";
+  }
   for (auto& lz : sc.lazy) out += UpdateLazy(lz.first, lz.second) + ";";
   for (auto& v : sc.builds) {
     Document d;
